@@ -979,6 +979,28 @@ def setup_flags(ix, R):
         if not e.args or not fl.tab.equal(e.args[0], fl.tab.atom('idx', (item, fl.tab.const(0)))):
             why.append('%s is called with %s, not the parameter name' % (e.name, [fmt(fl, a)[:40] for a in e.args]))
     R.check('9.setup', 'DOM', site, stmt, not why, key='; '.join(w[:90] for w in why), detail='; '.join(why), loc=f.loc(di[0].node))
+    # the [Derive] section: `<param>:compute = True` switches the derived parameter on, `= False` switches it off (what is
+    # on by default, or was switched on by an earlier set-up of the same optimizer, must be switched off when the file says so)
+    stmt_d = "`<param>:compute = True` enables the derived parameter and `= False` disables it"
+    en = [e for e in calls(fl, 'enable_derived') if e.loops]
+    di = [e for e in calls(fl, 'disable_derived') if e.loops]
+    if len(en) != 1:
+        R.error('9.setup.derived', 'DOM', site, stmt_d, '%d enable_derived calls in the loop' % len(en), loc=f.loc())
+        return
+    why = []
+    if not di:
+        why.append('disable_derived is never called: `compute = False` leaves the parameter as it was')
+    else:
+        gs_e = [g for g in en[0].guards if g.rf is not None and not validated(g) and 'compute' in fmt(fl, g.rf) and
+                atom_of(fl, g.rf) is not None and atom_of(fl, g.rf).head != 'cmp']
+        gs_d = [g for g in di[0].guards if g.rf is not None and not validated(g) and 'compute' in fmt(fl, g.rf) and
+                atom_of(fl, g.rf) is not None and atom_of(fl, g.rf).head != 'cmp']
+        if len(gs_e) != 1 or len(gs_d) != 1:
+            raise AnalysisError('enable_derived / disable_derived are not decided by one test of the compute flag each')
+        if not fl.tab.equal(gs_e[0].rf, gs_d[0].rf) or gs_e[0].positive is not True or gs_d[0].positive is not False:
+            why.append('enable_derived runs under %s and disable_derived under %s' % (gs_e[0].text(), gs_d[0].text()))
+    R.check('9.setup.derived', 'DOM', site, stmt_d, not why, key='; '.join(w[:90] for w in why), detail='; '.join(why),
+            loc=f.loc(en[0].node))
 
 
 def run(ix, R):
